@@ -1,4 +1,7 @@
 import GambitV.Lemmas.Jaccard
+import GambitV.Lemmas.F32
+import GambitV.Props.C02
+import Mathlib.Data.List.Sort
 import Mathlib.Algebra.Order.Field.Rat
 import Mathlib.Algebra.Order.Field.Basic
 import Mathlib.Data.Nat.Cast.Order.Ring
@@ -224,7 +227,207 @@ theorem dist_add_common_lt {x : ℕ} {A B : Finset ℕ} (hxA : x ∉ A) (hxB : x
 theorem dist_add_common_eq (x : ℕ) (A : Finset ℕ) : dist (insert x A) (insert x A) = 0 :=
   (dist_eq_zero_iff _ _).mpr rfl
 
+/-! ## Part B: the same facts for the binary32 value actually returned -/
+
+/-- Specification bits for two finite sets. -/
+def specBits (A B : Finset ℕ) : UInt32 :=
+  jaccardSpecBits (symmDiff A B).card (A ∪ B).card
+
+/-- F5 restated: the kernel returns `specBits` of the two coordinate sets. -/
+theorem jaccardBits_eq_specBits {a b : List ℕ} (ha : a.Pairwise (· < ·)) (hb : b.Pairwise (· < ·))
+    (hu : unionCount a b < 2 ^ 24) : jaccardBits a b = specBits a.toFinset b.toFinset :=
+  C02.jaccard_correctly_rounded ha hb hu
+
+theorem specBits_of_zero {A B : Finset ℕ} (h : (A ∪ B).card = 0) : specBits A B = 0 := by
+  simp [specBits, jaccardSpecBits, h, F32.zeroBits]
+
+theorem specBits_of_pos {A B : Finset ℕ} (h : (A ∪ B).card ≠ 0) :
+    specBits A B = F32.roundRat (symmDiff A B).card (A ∪ B).card := by
+  simp [specBits, jaccardSpecBits, h]
+
+/-- F6. The returned bits are `+0.0` exactly for equal sets. -/
+theorem specBits_zero_iff (A B : Finset ℕ) (hu : (A ∪ B).card < 2 ^ 24) :
+    specBits A B = 0 ↔ A = B := by
+  by_cases h : (A ∪ B).card = 0
+  · rw [specBits_of_zero h]
+    have hu : A ∪ B = ∅ := Finset.card_eq_zero.mp h
+    have hA : A = ∅ := (Finset.union_eq_empty.mp hu).1
+    have hB : B = ∅ := (Finset.union_eq_empty.mp hu).2
+    simp [hA, hB]
+  · have hle := card_symmDiff_le A B
+    rw [specBits_of_pos h, F32.roundRat_eq_zero_iff (Nat.pos_of_ne_zero h) (by omega) hu,
+      Finset.card_eq_zero]
+    exact symmDiff_eq_bot
+
+/-- F6. The returned bits are `1.0` exactly for disjoint sets that are not both empty. -/
+theorem specBits_one_iff (A B : Finset ℕ) (hu : (A ∪ B).card < 2 ^ 24) :
+    specBits A B = F32.oneBits ↔ (Disjoint A B ∧ (A ∪ B).Nonempty) := by
+  have hk := card_symmDiff_add_inter A B
+  have hdisj : Disjoint A B ↔ (A ∩ B).card = 0 := by
+    rw [Finset.card_eq_zero]; exact Finset.disjoint_iff_inter_eq_empty
+  by_cases h : (A ∪ B).card = 0
+  · rw [specBits_of_zero h]
+    have hu : A ∪ B = ∅ := Finset.card_eq_zero.mp h
+    constructor
+    · intro h01; exact absurd h01 (by decide)
+    · rintro ⟨_, hne⟩; rw [hu] at hne; exact absurd hne Finset.not_nonempty_empty
+  · have hne : (A ∪ B).Nonempty := Finset.card_pos.mp (Nat.pos_of_ne_zero h)
+    rw [specBits_of_pos h, hdisj]
+    by_cases h0 : (symmDiff A B).card = 0
+    · rw [h0, F32.roundRat_zero_left]
+      constructor
+      · intro h01; exact absurd h01 (by decide)
+      · rintro ⟨hi, _⟩; omega
+    · rw [F32.roundRat_eq_one_iff (Nat.pos_of_ne_zero h0) (card_symmDiff_le A B) hu]
+      constructor
+      · intro he; exact ⟨by omega, hne⟩
+      · rintro ⟨hi, _⟩; omega
+
+/-- F7. The returned value is within `2^-25` of the exact distance. -/
+theorem specBits_err (A B : Finset ℕ) (hu : (A ∪ B).card < 2 ^ 24) :
+    |F32.val (specBits A B) - dist A B| ≤ 1 / 2 ^ 25 := by
+  by_cases h : (A ∪ B).card = 0
+  · rw [specBits_of_zero h, dist_of_zero h, F32.val_zero, sub_self, abs_zero]; positivity
+  · rw [specBits_of_pos h, dist_of_pos h]
+    by_cases h0 : (symmDiff A B).card = 0
+    · rw [h0, F32.roundRat_zero_left, F32.val_zero]
+      simp
+    · exact F32.roundRat_err_unit (Nat.pos_of_ne_zero h0) (card_symmDiff_le A B) hu
+
+/-- The returned value lies in `[0, 1]`. -/
+theorem specBits_val_mem_unit (A B : Finset ℕ) (hu : (A ∪ B).card < 2 ^ 24) :
+    0 ≤ F32.val (specBits A B) ∧ F32.val (specBits A B) ≤ 1 := by
+  by_cases h : (A ∪ B).card = 0
+  · rw [specBits_of_zero h, F32.val_zero]; exact ⟨le_refl _, zero_le_one⟩
+  · rw [specBits_of_pos h]
+    by_cases h0 : (symmDiff A B).card = 0
+    · rw [h0, F32.roundRat_zero_left, F32.val_zero]; exact ⟨le_refl _, zero_le_one⟩
+    · have hle := card_symmDiff_le A B
+      exact ⟨le_of_lt (F32.val_roundRat_pos (Nat.pos_of_ne_zero h0) (Nat.pos_of_ne_zero h)
+        (by omega) hu), F32.val_roundRat_le_one (Nat.pos_of_ne_zero h0) hle hu⟩
+
+/-- F7 (sets). Triangle inequality for the rounded values, up to three rounding errors. -/
+theorem specBits_triangle (A B C : Finset ℕ) (hAC : (A ∪ C).card < 2 ^ 24)
+    (hAB : (A ∪ B).card < 2 ^ 24) (hBC : (B ∪ C).card < 2 ^ 24) :
+    F32.val (specBits A C) ≤ F32.val (specBits A B) + F32.val (specBits B C) + 3 / 2 ^ 25 := by
+  have e1 := abs_le.mp (specBits_err A C hAC)
+  have e2 := abs_le.mp (specBits_err A B hAB)
+  have e3 := abs_le.mp (specBits_err B C hBC)
+  have ht := dist_triangle A B C
+  linarith [e1.1, e1.2, e2.1, e2.2, e3.1, e3.2]
+
+/-- F8 (sets). Adding a common new element strictly decreases the returned value. -/
+theorem specBits_add_common_lt {x : ℕ} {A B : Finset ℕ} (hxA : x ∉ A) (hxB : x ∉ B)
+    (hne : A ≠ B) (hu : (A ∪ B).card + 1 < 2 ^ 23) :
+    F32.val (specBits (insert x A) (insert x B)) < F32.val (specBits A B) := by
+  have h : (A ∪ B).card ≠ 0 := by
+    intro h
+    have hu : A ∪ B = ∅ := Finset.card_eq_zero.mp h
+    exact hne (((Finset.union_eq_empty.mp hu).1).trans ((Finset.union_eq_empty.mp hu).2).symm)
+  have hxU : x ∉ A ∪ B := by simp [hxA, hxB]
+  have hcard : (insert x A ∪ insert x B).card = (A ∪ B).card + 1 := by
+    rw [union_insert_insert, Finset.card_insert_of_notMem hxU]
+  have hs : 0 < (symmDiff A B).card := by
+    apply Nat.pos_of_ne_zero
+    intro h0
+    exact hne (symmDiff_eq_bot.mp (Finset.card_eq_zero.mp h0))
+  rw [specBits_of_pos h, specBits_of_pos (by omega), symmDiff_insert_insert hxA hxB, hcard]
+  exact F32.roundRat_succ_den_lt hs (card_symmDiff_le A B) hu
+
+/-! ### The same statements for the kernel model on sorted coordinate lists -/
+
+theorem toFinset_eq_iff_of_sorted {a b : List ℕ} (ha : a.Pairwise (· < ·))
+    (hb : b.Pairwise (· < ·)) : a.toFinset = b.toFinset ↔ a = b := by
+  constructor
+  · intro h
+    apply List.Pairwise.eq_of_mem_iff ha hb
+    intro x
+    rw [← List.mem_toFinset, ← List.mem_toFinset, h]
+  · intro h; rw [h]
+
+/-- F6. `c_jaccarddist` returns `+0.0` exactly when the two signatures are equal. -/
+theorem bits_zero_iff {a b : List ℕ} (ha : a.Pairwise (· < ·)) (hb : b.Pairwise (· < ·))
+    (hu : unionCount a b < 2 ^ 24) : jaccardBits a b = 0 ↔ a = b := by
+  rw [jaccardBits_eq_specBits ha hb hu,
+    specBits_zero_iff _ _ (by rw [← C02.unionCount_eq_card ha hb]; exact hu),
+    toFinset_eq_iff_of_sorted ha hb]
+
+/-- F6. `c_jaccarddist` returns `1.0` exactly when the signatures share no element and are not
+both empty. -/
+theorem bits_one_iff {a b : List ℕ} (ha : a.Pairwise (· < ·)) (hb : b.Pairwise (· < ·))
+    (hu : unionCount a b < 2 ^ 24) :
+    jaccardBits a b = F32.oneBits ↔ ((∀ x, x ∈ a → x ∉ b) ∧ (a ≠ [] ∨ b ≠ [])) := by
+  rw [jaccardBits_eq_specBits ha hb hu,
+    specBits_one_iff _ _ (by rw [← C02.unionCount_eq_card ha hb]; exact hu)]
+  have h1 : Disjoint a.toFinset b.toFinset ↔ ∀ x, x ∈ a → x ∉ b := by
+    rw [Finset.disjoint_left]; simp only [List.mem_toFinset]
+  have h2 : (a.toFinset ∪ b.toFinset).Nonempty ↔ (a ≠ [] ∨ b ≠ []) := by
+    rw [Finset.nonempty_iff_ne_empty, Ne, Finset.union_eq_empty, List.toFinset_eq_empty_iff,
+      List.toFinset_eq_empty_iff]
+    tauto
+  rw [h1, h2]
+
+/-- F7. The value returned by the kernel is within `2^-25` of the exact Jaccard distance. -/
+theorem bits_err {a b : List ℕ} (ha : a.Pairwise (· < ·)) (hb : b.Pairwise (· < ·))
+    (hu : unionCount a b < 2 ^ 24) :
+    |F32.val (jaccardBits a b) - dist a.toFinset b.toFinset| ≤ 1 / 2 ^ 25 := by
+  rw [jaccardBits_eq_specBits ha hb hu]
+  exact specBits_err _ _ (by rw [← C02.unionCount_eq_card ha hb]; exact hu)
+
+/-- F7 (sharp form): the triangle inequality holds up to three rounding errors. -/
+theorem triangle_f32_sharp {a b c : List ℕ} (ha : a.Pairwise (· < ·)) (hb : b.Pairwise (· < ·))
+    (hc : c.Pairwise (· < ·)) (hac : unionCount a c < 2 ^ 24) (hab : unionCount a b < 2 ^ 24)
+    (hbc : unionCount b c < 2 ^ 24) :
+    F32.val (jaccardBits a c) ≤ F32.val (jaccardBits a b) + F32.val (jaccardBits b c) + 3 / 2 ^ 25 := by
+  rw [jaccardBits_eq_specBits ha hc hac, jaccardBits_eq_specBits ha hb hab,
+    jaccardBits_eq_specBits hb hc hbc]
+  exact specBits_triangle _ _ _
+    (by rw [← C02.unionCount_eq_card ha hc]; exact hac)
+    (by rw [← C02.unionCount_eq_card ha hb]; exact hab)
+    (by rw [← C02.unionCount_eq_card hb hc]; exact hbc)
+
+/-- F7. Triangle inequality of the single-precision distances up to `2^-22`. -/
+theorem triangle_f32 {a b c : List ℕ} (ha : a.Pairwise (· < ·)) (hb : b.Pairwise (· < ·))
+    (hc : c.Pairwise (· < ·)) (hac : unionCount a c < 2 ^ 24) (hab : unionCount a b < 2 ^ 24)
+    (hbc : unionCount b c < 2 ^ 24) :
+    F32.val (jaccardBits a c) ≤ F32.val (jaccardBits a b) + F32.val (jaccardBits b c) + 1 / 2 ^ 22 := by
+  have h := triangle_f32_sharp ha hb hc hac hab hbc
+  have : (3 : ℚ) / 2 ^ 25 ≤ 1 / 2 ^ 22 := by norm_num
+  linarith
+
+/-- F8. Adding one common new coordinate to both signatures strictly decreases the returned
+single-precision distance (unions below `2^23`). `a'`, `b'` are the sorted arrays of
+`insert x A`, `insert x B`. -/
+theorem add_common_strict_f32 {x : ℕ} {a b a' b' : List ℕ}
+    (ha : a.Pairwise (· < ·)) (hb : b.Pairwise (· < ·))
+    (ha' : a'.Pairwise (· < ·)) (hb' : b'.Pairwise (· < ·))
+    (hxa : x ∉ a) (hxb : x ∉ b) (hne : a ≠ b)
+    (hA : a'.toFinset = insert x a.toFinset) (hB : b'.toFinset = insert x b.toFinset)
+    (hu : unionCount a b + 1 < 2 ^ 23) :
+    F32.val (jaccardBits a' b') < F32.val (jaccardBits a b) := by
+  have hxA : x ∉ a.toFinset := by simpa using hxa
+  have hxB : x ∉ b.toFinset := by simpa using hxb
+  have hcard := C02.unionCount_eq_card ha hb
+  have hcard' : unionCount a' b' = unionCount a b + 1 := by
+    rw [C02.unionCount_eq_card ha' hb', hA, hB, union_insert_insert,
+      Finset.card_insert_of_notMem (by simp [hxA, hxB]), hcard]
+  rw [jaccardBits_eq_specBits ha hb (by omega), jaccardBits_eq_specBits ha' hb' (by omega), hA, hB]
+  exact specBits_add_common_lt hxA hxB
+    (fun h => hne ((toFinset_eq_iff_of_sorted ha hb).mp h)) (by rw [← hcard]; exact hu)
+
 /-! ### Non-vacuity -/
+
+example : F32.val (jaccardBits [1, 2, 3] [2, 3, 4]) = 1 / 2 := by
+  have h : jaccardBits [1, 2, 3] [2, 3, 4] = 0x3F000000 := by decide +kernel
+  have hd : F32.decode 0x3F000000 = some (2 ^ 23, -24) := by decide
+  rw [h, F32.val_of_decode hd]; norm_num
+
+example : jaccardBits [1, 2] [3] = F32.oneBits := by decide +kernel
+example : jaccardBits [1, 2] [1, 2] = 0 := by decide +kernel
+-- [1,2] vs [1,3]: 2/3;  with the common element 5 added: 2/4
+example : jaccardBits [1, 2] [1, 3] = 0x3F2AAAAB ∧ jaccardBits [1, 2, 5] [1, 3, 5] = 0x3F000000 := by
+  constructor <;> decide +kernel
+
 
 example : dist {1, 2, 3} {2, 3, 4} = 1 / 2 := by
   have h1 : (({1, 2, 3} : Finset ℕ) ∪ {2, 3, 4}).card = 4 := by decide
@@ -232,5 +435,15 @@ example : dist {1, 2, 3} {2, 3, 4} = 1 / 2 := by
   rw [dist_of_pos (by omega), h1, h2]; norm_num
 
 example : dist {1} {2} = 1 := (dist_eq_one_iff _ _).mpr ⟨by decide, by decide⟩
+
+-- the hypotheses of the list-level theorems are jointly satisfiable
+example : F32.val (jaccardBits [1, 2, 5] [1, 3, 5]) < F32.val (jaccardBits [1, 2] [1, 3]) :=
+  add_common_strict_f32 (x := 5) (by decide) (by decide) (by decide) (by decide) (by decide)
+    (by decide) (by decide) (by decide) (by decide) (by decide +kernel)
+
+example : F32.val (jaccardBits [1, 2] [3, 4]) ≤
+    F32.val (jaccardBits [1, 2] [2, 3]) + F32.val (jaccardBits [2, 3] [3, 4]) + 1 / 2 ^ 22 :=
+  triangle_f32 (by decide) (by decide) (by decide) (by decide +kernel) (by decide +kernel)
+    (by decide +kernel)
 
 end GambitV.C15
